@@ -289,6 +289,9 @@ impl CExpr {
                 .to_doc()
                 .append(RcDoc::text("."))
                 .append(RcDoc::text(index.to_string())),
+            CExpr::EClosureFn { closure, ty: _ } => RcDoc::text("as_fn(")
+                .append(closure.to_doc())
+                .append(RcDoc::text(")")),
         }
     }
 
